@@ -309,6 +309,14 @@ func runCase(w *world, kssKeys map[string]*gabikeys.PublicKey, c aCase, rng *mra
 			o := append([]*big.Int{}, in[i].OtherCommitments...)
 			o[0], o[1] = o[1], o[0]
 			in[i].OtherCommitments = o
+		case "shiftValComm":
+			in[i].Value, in[i].Commitment = redivide(in[i].Value, in[i].Commitment)
+		case "shiftCommOther":
+			o := append([]*big.Int{}, in[i].OtherCommitments...)
+			in[i].Commitment, o[0] = redivide(in[i].Commitment, o[0])
+			in[i].OtherCommitments = o
+		case "shiftNext":
+			in[i].Commitment, in[i+1].Value = redivide(in[i].Commitment, in[i+1].Value)
 		case "keyOther", "keyUnknown":
 			k := c.Alt.K
 			in[i].KeyID = &k
@@ -397,4 +405,20 @@ func runCase(w *world, kssKeys map[string]*gabikeys.PublicKey, c aCase, rng *mra
 		return
 	}
 	res.Sample(hx.M{"honest": c.Bl, "ctx": c.Ctx, "flag": c.Flag, "verifies": true})
+}
+
+// redivide moves leading bytes of b to the end of a such that the concatenation of the big-endian encodings of the two
+// numbers stays the same (the byte that becomes b's first must not be zero).
+func redivide(a, b *big.Int) (*big.Int, *big.Int) {
+	ab, bb := a.Bytes(), b.Bytes()
+	k := 1
+	for k < len(bb)-1 && bb[k] == 0 {
+		k++
+	}
+	if k >= len(bb) || bb[k] == 0 {
+		hx.Fatal("cannot re-divide %x | %x", ab, bb)
+	}
+	na := new(big.Int).SetBytes(append(append([]byte{}, ab...), bb[:k]...))
+	nb := new(big.Int).SetBytes(bb[k:])
+	return na, nb
 }
